@@ -23,8 +23,14 @@ def declare_square(atom: str, value: "Poly") -> None:
     _SQUARE[atom] = value
 
 
+_RESET_HOOKS = []
+
+
 def reset_relations() -> None:
+    """Start a fresh symbolic session: forget all relations and every cache that depends on them."""
     _SQUARE.clear()
+    for h in _RESET_HOOKS:
+        h()
 
 
 def _mono_mul(a: Mono, b: Mono) -> Mono:
